@@ -39,6 +39,21 @@ class IntStr:
     def __radd__(self, o):
         return IntStr([o] + self.parts)
 
+    def _sym(self):
+        from .symstr import SymStr
+        return SymStr.of(self)
+
+    def __eq__(self, o):
+        if isinstance(o, (IntStr, builtins.str)) or getattr(o, '__is_symstr__', False):
+            return self._sym() == o
+        return False
+
+    def __ne__(self, o):
+        return core.s_not(self.__eq__(o))
+
+    def __hash__(self):
+        return 19
+
 
 def sh_str(x='', *a):
     if a:
